@@ -74,10 +74,23 @@ class C09(InterpProp):
         mut = rnd.random() < 0.15
         if mut:
             gen.add_mutables(rnd, sc)
+        grasping = not mut and rnd.random() < 0.1
+        if grasping:
+            # conditions reaching for what only executed code is given (setdefault, send, notify): conditions are
+            # evaluated, not executed — such a condition is an error of the statechart, and an erring run is outside
+            # the premise; were it to succeed it would write where the run ignoring contracts does not
+            objs = [st for st in (sc.state_for(n) for n in sc.states)] + list(sc.transitions)
+            for o in rnd.sample(objs, min(len(objs), rnd.randint(1, 3))):
+                getattr(o, rnd.choice(['preconditions', 'postconditions', 'invariants'])).append(
+                    rnd.choice(["setdefault('q', 1) == 1", "setdefault('x', 0) >= 0 or True", "send('zz') is None",
+                                "notify('zz') is None"]))
         case = self._pair(ChartEnc(sc), sc, gen.gen_ops(rnd, kn, self.n_ops))
         if mut:
             # the implementation-side `__old__` channel: was a failing condition shown the documented __old__?
             case.payload['record_old'] = True
+        elif grasping:
+            case.payload['no_model'] = True
+            case.model_ok = False
         elif rnd.random() < 0.12:
             # each interpreter has a clock of its own that moves whenever it is read (time passes between two
             # readings of a wall clock): checking contracts must not add readings (implementation only)
